@@ -15,7 +15,8 @@ LEVEL_TEXT = ("Exhaustive for all strands of length 0..7 (thorough: 0..8) x chec
               "single C/G/T insertion/deletion; sampled for strands up to 10 000 nt and check lengths up to 64 (across the "
               "int64 boundary at 33). Held on all of them in this run.")
 LEVEL_NOTE = "Trusts the 10-line VT formula in vlib/oracles.py (Python ints)."
-PLAN = {"quick": dict(shards=16, budget=40), "thorough": dict(shards=16, budget=400)}
+PLAN = {"quick": dict(shards=17, budget=40), "thorough": dict(shards=17, budget=400)}
+SPECIAL_SHARD = True  # the last shard runs files of the repository's own suite in-process under the contracts
 EXHAUSTIVE = ["strands<=7 (quick) / <=8 (thorough) x n in {1,2,3,5} x all single edits"]
 RULE = ("icontract ensure on dsw.set_vt (fires on the internal calls from encode/decode/repair_dna too): result == "
         "NUC[sum mod 4] + big-endian base-4 digits of (sum of 0-based ascent positions mod 4^(n-1)), length n. Cases: every "
@@ -58,6 +59,9 @@ def neighbours(s):
 
 def generate(ctx):
     rng = ctx.rng
+    if ctx.special:
+        yield "repo_tests", dict(files=ctx.pick(['tests/test_coding.py', 'tests/test_repair.py'], ['tests/test_coding.py', 'tests/test_repair.py']))
+        return
     i = 0
     for n_len in range(0, ctx.pick(8, 9)):
         for tup in itertools.product("ACGT", repeat=n_len):
@@ -164,11 +168,27 @@ def check_decode_rejects(ctx, case):
     ctx.done("decode_rejects", case, len(w) >= 2 and n >= 2)
 
 
-CHECKS = {"exhaustive": check_exhaustive, "formula": check_formula, "decode_rejects": check_decode_rejects}
+def check_repo_tests(ctx, case):
+    """The repository's own tests, in-process, with this property's contracts installed."""
+    from vlib.coding import run_repo_tests
+    rc, n = run_repo_tests(ctx, case["files"])
+    ctx.mon("contract-evaluations-inside-repo-tests", n)
+    if rc is None:
+        ctx.cls("repo-tests|missing")
+        return
+    ctx.cls("repo-tests|run")
+    if rc != 0:
+        ctx.fail("repo-tests-under-contracts", "pytest exit %s on %s with the contracts installed (a contract fired inside the repository's own tests, or a test failed)" % (rc, case["files"]))
+    ctx.done("repo_tests", case, n > 0)
+
+
+CHECKS = {"repo_tests": check_repo_tests, "exhaustive": check_exhaustive, "formula": check_formula, "decode_rejects": check_decode_rejects}
 
 
 def floors(agg, tier):
     out = []
+    if agg["monitors"].get("contract-evaluations-inside-repo-tests", 0) < (3 if tier == "quick" else 3):
+        out.append("repository tests ran %d contract evaluations" % agg["monitors"].get("contract-evaluations-inside-repo-tests", 0))
     c, m = agg["classes"], agg["monitors"]
     if m.get("contract-evaluations:set_vt.ensure.vt_is_formula", 0) < 100000:
         out.append("set_vt contract evaluated %d times" % m.get("contract-evaluations:set_vt.ensure.vt_is_formula", 0))
